@@ -95,7 +95,7 @@ class Schema(object):
 
 def build_api(schema, id_generator=None, factory=None, attr_form=list):
     import xtuml
-    m = (factory or xtuml.MetaModel)(id_generator or xtuml.IntegerGenerator())
+    m = (factory or xtuml.MetaModel)(id_generator if id_generator is not None else xtuml.IntegerGenerator())
     for kind, attrs in schema.classes:
         m.define_class(kind, attr_form(attrs))
     for kind, name, attrs in schema.uniques:
@@ -113,7 +113,7 @@ def build_loader(schema, id_generator=None):
     import xtuml
     l = xtuml.ModelLoader()
     l.input(schema.sql())
-    return l.build_metamodel(id_generator or xtuml.IntegerGenerator())
+    return l.build_metamodel(id_generator if id_generator is not None else xtuml.IntegerGenerator())
 
 
 # ---------------------------------------------------------------------------
